@@ -10,6 +10,10 @@ BASELINE_OFF = ("cd /repo && GOFLAGS=-mod=mod GOPROXY=off GOSUMDB=off go test -j
 
 # id -> (level, engine, technique, text, note, design_ref)
 CHECKS = {
+ "C07": ("model_checking", "E1-sequences",
+   "exhaustive enumeration of operation sequences on a replica's mount: full rollback and WAL transaction scripts continued past refusals with every extra mutating operation inserted at every position; digest compared after every operation",
+   "On a connected, caught-up replica the 28-step rollback script (with and without a left-over journal) and the 23-step WAL script are run through the real FUSE handlers with each of 35 extra operations (writes of every alignment, truncates, journal/WAL/SHM create-write-truncate-unlink, lock and unlock incl. the WAL capture trigger, database unlink, /import to the replica, a primary commit) inserted at every position; after every single operation the replica's position, logical image and LTX directory contents must be unchanged, page/journal/WAL writes must fail with EACCES, and modes must be 0444/0555 on the replica vs 0666/0777 on the primary; the position moves only when the primary commits.",
+   "Handler methods are called directly (no kernel permission check). The part of C07 about authority lost in the middle of a commit needs the schedule engine and is not claimed by this check yet.", "§4 C07"),
  "C12": ("model_checking", "E1-closure+fake-clock",
    "explicit-state BFS to closure over the real RWMutex (private-state key) vs POSIX one-byte model; exhaustive blocking-variant matrix on the synctest fake clock",
    "Every operation from every reachable state of one real RWMutex with four guards is executed and compared with the reader/writer rules (20 states x 20 operations, closure reached); blocking Lock/RLock are decided for every holder/waiter/event/timing combination on a fake clock. Complete for the stated alphabet, which is the property's own quantifier.",
